@@ -250,6 +250,15 @@ func (g *Gen) candidates(t reflect.Type) []*producer {
 	return out
 }
 
+// Boost multiplies the weight of the named producers (e.g. "qrb.Bind": 30).
+func (g *Gen) Boost(m map[string]float64) {
+	for _, p := range g.producers {
+		if f, ok := m[p.name]; ok {
+			p.weight *= f
+		}
+	}
+}
+
 // Types returns every concrete type the generator can produce.
 func (g *Gen) Types() []reflect.Type { return g.types }
 
@@ -281,7 +290,7 @@ func (g *Gen) genString(hint string) string {
 	h := strings.ToLower(hint)
 	hostile := g.Rng.Float64() < g.Hostile
 	switch {
-	case h == "s" || strings.Contains(h, "table") || h == "n":
+	case h == "s" || h == "n":
 		if hostile {
 			return g.pick(hostilePool)
 		}
@@ -294,7 +303,8 @@ func (g *Gen) genString(hint string) string {
 	case strings.Contains(h, "argname"):
 		return g.pick(bindPool)
 	case strings.Contains(h, "alias") || strings.Contains(h, "column") || strings.Contains(h, "outputname") ||
-		strings.Contains(h, "queryname") || strings.Contains(h, "constraint") || h == "names" || h == "columns" || h == "key":
+		strings.Contains(h, "queryname") || strings.Contains(h, "constraint") || h == "names" || h == "columns" ||
+		h == "aliases" || strings.Contains(h, "tablename") || h == "key":
 		if h == "key" {
 			return g.pick(strPool)
 		}
@@ -457,6 +467,9 @@ func (g *Gen) call(p *producer, depth int) (val Val, ok bool) {
 		hint := ""
 		if k := j - p.firstArg(); k < len(p.params) {
 			hint = p.params[k]
+			if (hint == "rest" || hint == "exps") && k > 0 {
+				hint = p.params[k-1]
+			}
 		}
 		if p.typ.IsVariadic() && j == n-1 {
 			s, ok := g.Gen(p.typ.In(j), depth-1, hint)
